@@ -138,7 +138,7 @@ pub fn run(cfg: &RunCfg) -> PropRun {
         },
     );
     run.absorb(out);
-    let out = campaign(cfg, ID, "pairs", cfg.pick(150_000, 3_000_000), || pair_strategy(1, 3), check_pair);
+    let out = campaign(cfg, ID, "pairs", cfg.pick(400_000, 4_000_000), || pair_strategy(1, 3), check_pair);
     run.absorb(out);
     run
 }
